@@ -70,8 +70,7 @@ UNPROVED = ["add_preserves_valid_full (bytes level; now narrowed: proved over th
             "msi_digest_ignores_signature_full (over file bytes; proved over directory trees: msi_digest_ignores_signature, tied by the MSI ops)",
             "tar_equals_direct_tree_full_orig (the code before the repair of Fmsi-tar: refuted by tar_differs_encoded_signature_name / "
             "tar_differs_nested_signature_name); for the repaired code tar_equals_direct holds for every document MsiToTar converts, "
-            "and msiToTar_refuses characterises the refused ones",
-            "sort_panics_iff_full (every list containing a trigger pair panics; proved: no trigger pair => no panic, and the comparator's exact trigger)"]
+            "and msiToTar_refuses characterises the refused ones"]
 IMPL_PARALLEL = 16
 
 
